@@ -1,13 +1,21 @@
 import InTotoModel.Props.C10
 import InTotoModel.Props.C11
+import InTotoModel.Lemmas.CodecInj
+import InTotoModel.Props.C16
 /-
   C05 — Any meaningful change to signed content invalidates its signatures.
 
-  JSON level (this file): the signed text determines the JSON value (`norm` = the value as a
-  `BTreeMap`-based `serde_json::Value`; member order is not part of a JSON value) — `signedText`
-  and `canon` are injective.  The step from layouts / links to JSON values (the serialisation is
-  injective on representable metadata) is `c16_*_toJson_injective` in Props/C16.lean and is
-  composed there (`c05_metadata_*`).
+  JSON level: the signed text determines the JSON value (`norm` = the value as a `BTreeMap`-based
+  `serde_json::Value`; member order is not part of a JSON value) — `signedText` and `canon` are
+  injective.
+  Metadata level (`Lemmas/CodecInj.lean`): the encoders of `Model/Codec.lean` are injective up to
+  that normal form on canonical values (maps taken in key order, as `BTreeMap`s are), field by field:
+  name, materials and products with every digest, environment, byproducts, command; step and
+  inspection names, thresholds, rules, authorized key ids, commands; readme, key table, expiry.
+  Composition: two different links, or two different layouts, are never signed over the same bytes
+  (`c05_distinct_links_…`, `c05_distinct_layouts_…`).  For layouts the two outside parts enter as
+  hypotheses (`EnvInjective`): chrono's writer gives different texts for different instants (to
+  the second) and different keys have different JSON descriptions (C12).
 -/
 namespace InToto.Json
 
@@ -30,6 +38,49 @@ theorem c05_distinct_values_distinct_bytes {v v' : JV} {t t' : Str}
   intro e
   subst e
   exact hne (c05_signed_text_injective h h')
+
+open InToto.Wire in
+/-- Two different links are signed over different bytes. -/
+theorem c05_distinct_links_distinct_signed_bytes {l l' : LinkW} (hc : l.Canon) (hc' : l'.Canon) (hne : l ≠ l')
+    {t t' : Str} (h : signedText (linkToJson l) = .ok t) (h' : signedText (linkToJson l') = .ok t') : t ≠ t' := by
+  intro e
+  subst e
+  exact hne (link_norm_injective hc hc' (c05_signed_text_injective h h'))
+
+open InToto.Wire in
+/-- Two different layouts are signed over different bytes. -/
+theorem c05_distinct_layouts_distinct_signed_bytes {K : Type} (E : DocEnv K) (hE : EnvInjective E)
+    {L L' : LayoutW K} (hc : LayoutCanon E L) (hc' : LayoutCanon E L') (hne : L ≠ L')
+    {t t' : Str} (h : signedText (layoutToJson E L) = .ok t) (h' : signedText (layoutToJson E L') = .ok t') :
+    t ≠ t' := by
+  intro e
+  subst e
+  exact hne (layout_norm_injective E hE hc hc' (c05_signed_text_injective h h'))
+
+open InToto.Wire in
+/-- The same for single steps and inspections (every field of either is observable in the bytes). -/
+theorem c05_distinct_steps_distinct_signed_bytes {s s' : StepW} (hne : s ≠ s')
+    {t t' : Str} (h : signedText (stepToJson s) = .ok t) (h' : signedText (stepToJson s') = .ok t') : t ≠ t' := by
+  intro e
+  subst e
+  exact hne (step_norm_injective (c05_signed_text_injective h h'))
+
+/- Non-vacuity: the example link of Props/C16.lean is canonical, and so is the link that differs
+   from it in one digest byte. -/
+open InToto.Wire in
+theorem exLink_canon : exLink.Canon := by
+  refine ⟨⟨by decide, ?_⟩, ⟨by decide, ?_⟩, ?_, exLink_WF.2.2, by decide⟩
+  · intro p hp; simp only [exLink, List.mem_singleton] at hp; subst hp; unfold DigestCanon; decide
+  · intro p hp; simp only [exLink, List.mem_singleton] at hp; subst hp; unfold DigestCanon; decide
+  · intro m hm; simp only [exLink, Option.some.injEq] at hm; subst hm; decide
+
+open InToto.Wire in
+def exLink' : LinkW := { exLink with materials := [("src/a.c".toList, [("sha256".toList, [0xab, 0x02])])] }
+
+open InToto.Wire in
+example : exLink'.Canon ∧ exLink ≠ exLink' := by
+  refine ⟨⟨⟨by decide, ?_⟩, exLink_canon.2.1, exLink_canon.2.2.1, exLink_canon.2.2.2⟩, by decide⟩
+  intro p hp; simp only [exLink', List.mem_singleton] at hp; subst hp; unfold DigestCanon; decide
 
 /- Non-vacuity: the near-collision "LF vs backslash-n" is told apart. -/
 example : signedText (.str ['\n']) ≠ signedText (.str ['\\', 'n']) := by
